@@ -127,7 +127,13 @@ func (s *Solver) Check(asserts []*Term, wantModel bool) (string, Model) {
 		b.WriteString(a.Text())
 		b.WriteString(")\n")
 	}
-	b.WriteString("(check-sat)\n(echo \"DONE\")\n")
+	if s.name == "cvc5" || s.name == "z3old" {
+		b.WriteString("(check-sat)\n(echo \"DONE\")\n")
+	} else {
+		// solve-eqs substitutes equalities between variables before bit-blasting: without it an
+		// equality like f(x,y) = f(x,x) under x = y has to be proved through the divider circuits
+		fmt.Fprintf(&b, "(check-sat-using (try-for (then simplify solve-eqs simplify smt) %d))\n(echo \"DONE\")\n", solverTimeoutMs)
+	}
 	if s.logf != nil {
 		s.logf.WriteString(b.String())
 	}
